@@ -185,6 +185,25 @@ package iparser
 //@     after handed := handed + 1
 //@   ensures [C01] once: old(len(g.ParseErrors)) == 0 ==> handed == 1
 
+// call nodes (C03): a new call node is created with the callee name taken from the call's own name token
+//@ func (*GengineParserListener).EnterMethodCall
+//@   props C03
+//@   requires g != nil && ctx != nil
+//@   ensures [C03] callee: old(len(g.ParseErrors)) == 0 ==> fresh(methodCall) && methodCall.MethodName == termText(termNode(ctx, 1)) && methodCall.MethodArgs == nil
+//@   modifies nothing
+
+//@ func (*GengineParserListener).EnterThreeLevelCall
+//@   props C03
+//@   requires g != nil && ctx != nil
+//@   ensures [C03] callee: old(len(g.ParseErrors)) == 0 ==> fresh(threeLevelCall) && threeLevelCall.ThreeLevel == termText(termNode(ctx, 2)) && threeLevelCall.MethodArgs == nil
+//@   modifies nothing
+
+//@ func (*GengineParserListener).EnterFunctionCall
+//@   props C03
+//@   requires g != nil && ctx != nil
+//@   ensures [C03] callee: old(len(g.ParseErrors)) == 0 ==> fresh(funcCall) && funcCall.FunctionName == termText(termNode(ctx, 3)) && funcCall.FunctionArgs == nil
+//@   modifies nothing
+
 // call arguments (C03): the finished argument list is handed to the call node below it, once
 //@ func (*GengineParserListener).ExitFunctionArgs
 //@   props C03
